@@ -31,6 +31,7 @@ type Case struct {
 	Retry     bool
 	TwoAddrs  bool
 	DeadFirst bool // the first of the publisher's addresses refuses connections
+	Legacy    bool // plain-HTTP publisher from before the IPNI path existed: the client has to fall back to the path-less form
 	LibHook   bool // the subscriber's hook delegates to dagsync.MakeGeneralBlockHook (fault kind prevfail: its lookup function fails)
 	SegScoped bool // explicit syncs give the segment size per call (with a per-call depth limit); the subscriber's own limit is larger
 	Attempts  []fault // 1 or 2 faulty attempts (one fault each), followed by a fault-free attempt
@@ -47,6 +48,7 @@ func genCase(t *rapid.T) Case {
 	c.LibHook = c.Seg > 0 && rapid.IntRange(0, 2).Draw(t, "libhook") > 0
 	c.Entry = rapid.SampledFrom([]string{"sync", "announce"}).Draw(t, "entry")
 	c.Discovery = rapid.Bool().Draw(t, "discovery")
+	c.Legacy = !c.Discovery && rapid.IntRange(0, 3).Draw(t, "legacy") == 0
 	c.Retry = rapid.IntRange(0, 3).Draw(t, "retry") == 0
 	c.TwoAddrs = rapid.IntRange(0, 3).Draw(t, "twoaddrs") == 0
 	c.DeadFirst = rapid.IntRange(0, 3).Draw(t, "deadfirst") == 0
@@ -119,6 +121,7 @@ func setup(c Case) (*run, error) {
 	w.LibraryHook = c.LibHook
 	p := w.AddPublisher(0, c.Discovery, "")
 	p.ExtendAds(c.N)
+	p.Legacy = c.Legacy
 	if c.TwoAddrs {
 		p.AddAlias()
 	}
@@ -226,7 +229,7 @@ func wfault(f fault, cancel context.CancelFunc, bodyLen int) world.Fault {
 
 func runCase(t *testing.T) func(Case) pbt.Result {
 	return func(c Case) (res pbt.Result) {
-		res.Classes = []string{"entry=" + c.Entry, fmt.Sprintf("discovery=%v", c.Discovery), fmt.Sprintf("segmented=%v", c.Seg > 0)}
+		res.Classes = []string{"entry=" + c.Entry, fmt.Sprintf("discovery=%v", c.Discovery), fmt.Sprintf("segmented=%v", c.Seg > 0), fmt.Sprintf("legacy=%v", c.Legacy)}
 		for _, f := range c.Attempts {
 			if !applicable(c, f) {
 				return pbt.Result{Skip: true}
@@ -460,7 +463,7 @@ func runCase(t *testing.T) func(Case) pbt.Result {
 	}
 }
 
-const rule = "chain of 1..6 ads, optional earlier sync of a prefix, segmented (1, 2, 3) or not, the subscriber's hook its own or delegating to the library's MakeGeneralBlockHook, explicit or announce-triggered, plain or discovery transport, optional retryable client, one or two publisher addresses; optionally a first address that refuses connections, optionally the segment size given per call (ScopedSegmentDepthLimit with a per-call depth limit, under a larger subscriber-wide limit); 1 or 2 faulty attempts, each with one fault (HTTP 400/403/404/429/500/503, connection reset, truncated body, bit flip, stalled response, caller context cancelled at a request or inside the k-th hook call, FailSync from the hook, a failing previous-advertisement lookup inside the library's general hook, at the head request or at any block-request index; or the sync cannot start at all: sender information with only a non-HTTP address, or with no address), then a fault-free attempt; oracle: differential against a fault-free run of the same configuration in a fresh world: a failed attempt leaves latest-sync unchanged, emits no success notification and (announce) exactly one error notification for the announced CID; a successful attempt ends at the head; the fault-free attempt succeeds, latest-sync, store contents and reported blocks equal the fault-free run and it requests exactly the segment blocks not yet stored; every stored block hashes to its CID. Non-trivial: the fault was reached and the attempt failed; distinct by (fault kind, request index, chain length, entry kind, transport, segment size)."
+const rule = "chain of 1..6 ads, optional earlier sync of a prefix, segmented (1, 2, 3) or not, the subscriber's hook its own or delegating to the library's MakeGeneralBlockHook, explicit or announce-triggered, plain or discovery transport (plain also as a legacy publisher that only serves the path-less form), optional retryable client, one or two publisher addresses; optionally a first address that refuses connections, optionally the segment size given per call (ScopedSegmentDepthLimit with a per-call depth limit, under a larger subscriber-wide limit); 1 or 2 faulty attempts, each with one fault (HTTP 400/403/404/429/500/503, connection reset, truncated body, bit flip, stalled response, caller context cancelled at a request or inside the k-th hook call, FailSync from the hook, a failing previous-advertisement lookup inside the library's general hook, at the head request or at any block-request index; or the sync cannot start at all: sender information with only a non-HTTP address, or with no address), then a fault-free attempt; oracle: differential against a fault-free run of the same configuration in a fresh world: a failed attempt leaves latest-sync unchanged, emits no success notification and (announce) exactly one error notification for the announced CID; a successful attempt ends at the head; the fault-free attempt succeeds, latest-sync, store contents and reported blocks equal the fault-free run and it requests exactly the segment blocks not yet stored; every stored block hashes to its CID. Non-trivial: the fault was reached and the attempt failed; distinct by (fault kind, request index, chain length, entry kind, transport, segment size)."
 
 func TestC04_Random(t *testing.T) {
 	pbt.Run(t, pbt.Config{Prop: "C04", Unit: "TestC04_Random", Rule: rule, TrackCurrent: true}, genCase, runCase(t))
